@@ -202,19 +202,21 @@ Definition bind_ok (s : sigma) (G : gov) (defined : list cid) (c : cid) : bool :
   | Some r => forallb (fun n => Nat.eqb n c || negb (mref_opt_eqb (cs_meta (st_cls s n)) (Some r))) defined
   end.
 
-(* DefineClass: a JSONWizard class without an inner Meta must not find a Meta initialiser
-   left under its qualname by another class (F11: it would share that class's Meta object) *)
-Definition define_ok (s : sigma) (cd : cdef) : bool :=
-  if ci_wiz (cd_info cd) then
-    match ci_inner (cd_info cd) with
-    | Some _ => true
-    | None => match st_minit s (ci_qn (cd_info cd)) with None => true | Some _ => false end
-    end
-  else true.
+(* DefineClass: the class id is new to the history, and a JSONWizard class without an inner
+   Meta must not find a Meta initialiser left under its qualname by another class
+   (F11: it would share that class's Meta object) *)
+Definition define_ok (s : sigma) (G : gov) (cd : cdef) : bool :=
+  match G (ci_id (cd_info cd)) with Some _ => false | None => true end &&
+  (if ci_wiz (cd_info cd) then
+     match ci_inner (cd_info cd) with
+     | Some _ => true
+     | None => match st_minit s (ci_qn (cd_info cd)) with None => true | Some _ => false end
+     end
+   else true).
 
 Definition safe_op (s : sigma) (G : gov) (defined : list cid) (o : op) : bool :=
   match o with
-  | ODefine cd => define_ok s cd
+  | ODefine cd => define_ok s G cd
   | OBind c _ => bind_ok s G defined c
   | OLoad c attr _ =>
       match decl_of s c with
